@@ -641,7 +641,24 @@ static int restore_interior_string (char **val, svalue_t * sv) {
   return 0;
 }
 
-static int parse_numeric (char **cpp, char c, svalue_t * dest) {
+/* The character that ended a number has been read already (the callers take it for the
+ * delimiter): it has to be one.  The size pre-scan passes over anything up to the next
+ * delimiter, so without this test "2x" counted as one element there and as a number
+ * followed by its delimiter here, and the two passes were out of step from then on - the
+ * restore pass then met quotes that the pre-scan had never checked for a closing quote.
+ * At the end of the text the pointer stays on the terminating NUL. */
+static int numeric_ends_here (char c, char **cpp) {	/* (for the elements of arrays, mappings and classes) */
+  if (c == ',' || c == ':')
+    return 1;
+  if (c == '\0')
+    {
+      (*cpp)--;
+      return 1;
+    }
+  return 0;
+}
+
+static int parse_numeric (char **cpp, char c, svalue_t * dest, int interior) {
   char *cp = *cpp;
   uint64_t res;	/* LPC integers are 64 bits wide; unsigned so that -2^63 can be accumulated */
   int neg;
@@ -705,6 +722,8 @@ static int parse_numeric (char **cpp, char c, svalue_t * dest) {
             return 0;
         }
 
+      if (interior && !numeric_ends_here (c, &cp))
+        return 0;
       dest->type = T_REAL;
       dest->u.real = (neg ? -f1 : f1);
       *cpp = cp;
@@ -736,6 +755,8 @@ static int parse_numeric (char **cpp, char c, svalue_t * dest) {
       else
         return 0;
 
+      if (interior && !numeric_ends_here (c, &cp))
+        return 0;
       dest->type = T_REAL;
       dest->u.real = (neg ? -f1 : f1);
       *cpp = cp;
@@ -743,6 +764,8 @@ static int parse_numeric (char **cpp, char c, svalue_t * dest) {
     }
   else
     {
+      if (interior && !numeric_ends_here (c, &cp))
+        return 0;
       dest->type = T_NUMBER;
       dest->u.number = (int64_t)(neg ? (uint64_t)0 - res : res);
       *cpp = cp;
@@ -860,7 +883,7 @@ static int restore_mapping (char **str, svalue_t * sv) {
         case '7':
         case '8':
         case '9':
-          if (!parse_numeric (&cp, c, &key))
+          if (!parse_numeric (&cp, c, &key, 1))
             goto key_numeral_error;
           break;
 
@@ -922,7 +945,7 @@ static int restore_mapping (char **str, svalue_t * sv) {
         case '7':
         case '8':
         case '9':
-          if (!parse_numeric (&cp, c, &value))
+          if (!parse_numeric (&cp, c, &value, 1))
             goto value_numeral_error;
           break;
 
@@ -1096,7 +1119,7 @@ static int restore_class (char **str, svalue_t * ret) {
         case '7':
         case '8':
         case '9':
-          if (parse_numeric (&cp, c, sv))
+          if (parse_numeric (&cp, c, sv, 1))
             sv++;
           else
             goto numeral_error;
@@ -1203,7 +1226,7 @@ static int restore_array (char **str, svalue_t * ret) {
         case '7':
         case '8':
         case '9':
-          if (parse_numeric (&cp, c, sv))
+          if (parse_numeric (&cp, c, sv, 1))
             sv++;
           else
             goto numeral_error;
@@ -1363,7 +1386,7 @@ int restore_svalue (char *cp, svalue_t * v) {
     case '7':
     case '8':
     case '9':
-      if (!parse_numeric (&cp, c, v))
+      if (!parse_numeric (&cp, c, v, 0))
         return ROB_NUMERAL_ERROR;
       break;
 
@@ -1432,7 +1455,7 @@ int safe_restore_svalue (char *cp, svalue_t * v) {
     case '7':
     case '8':
     case '9':
-      if (!parse_numeric (&cp, c, &val))
+      if (!parse_numeric (&cp, c, &val, 0))
         return ROB_NUMERAL_ERROR;
       break;
 
